@@ -212,6 +212,8 @@ func (fr *frame) load(p pointer) value {
 	}
 	if p.obj.global != nil {
 		fr.m.noteGlobalAccess(p.obj.global, false)
+	} else if fr.m.trackShared {
+		fr.m.noteObjAccess(p.obj, false, fr)
 	}
 	return copyVal(*cellOf(p.obj, p.path))
 }
@@ -238,6 +240,12 @@ func (fr *frame) store(p pointer, v value) {
 		m.undo = append(m.undo, undoRec{c, *c})
 		if p.obj.global != nil {
 			m.noteGlobalWrite(p.obj.global, fr)
+		}
+	}
+	if m.trackShared {
+		if p.obj.global != nil || m.sharedObj(p.obj) {
+			m.noteObjAccess(p.obj, true, fr)
+			m.publish(v)
 		}
 	}
 	*c = copyVal(v)
@@ -1042,6 +1050,9 @@ func (fr *frame) rangeIter(x value) value {
 	case *mapObj:
 		it := &iterator{m: x}
 		if x != nil {
+			if fr.m.trackShared {
+				fr.m.noteMapAccess(x, false, fr)
+			}
 			for i, k := range x.keys {
 				if !x.dead[i] {
 					it.keys = append(it.keys, k)
